@@ -100,9 +100,35 @@ TEXT['C05'] = dict(
     note=BOUNDED_NOTE + 'Found and fixed two genuine defects this way (fix: 3ea85e8, 5860959).',
     technique='bounded differential run of the real driver statements across process grids under simulated MPI')
 
+TEXT['C12'] = dict(
+    category='proof',
+    text='Both poloidal kernels and their dispatchers are verified for all grids and inputs. Explicit: every node receives the '
+         'boundary value (0, f_eq(r_min), f_eq(foot) outside r_max) or the 2-D spline of f at the Heun foot written out from the '
+         'property (drift = spline derivatives of phi / r, second slope evaluated at the Euler foot or 0 outside the radial domain, '
+         'theta modulo 2 pi). Implicit: IF the iteration stops, the feet are one trapezoid update (r clipped, theta wrapped) of a '
+         'previous iterate from which they differ by at most tol, and f is evaluated there by the same rule.',
+    note=PROOF_NOTE + 'Not decided: termination of the implicit iteration; exact rigid rotation and third-order agreement '
+         '(numerical, bounded tier). PoloidalAdvection.step / gridStep wiring is covered by the bounded tiers only.',
+    technique='double-loop invariants with let-bound characteristic formulas, ghost arrays for the previous iterate, z3')
+
+TEXT['C17'] = dict(
+    category='other',
+    text='Bounded stand-in only so far: the real norm / energy / min-max / collector classes run on simulated process grids with '
+         'uneven blocks in every layout and are compared with an independently written serial quadrature of the global field. The '
+         'deductive weight-slice proof of DESIGN C17 is not built yet.',
+    note=BOUNDED_NOTE + 'Found and fixed the float slot index of DiagnosticCollector.collect (fix: ee34928).',
+    technique='bounded run-time checking against an independent serial quadrature under simulated MPI')
+TEXT['C18'] = dict(
+    category='other',
+    text='Bounded stand-in only so far: checkpoint write/load across process counts (bitwise), latest/requested checkpoint selection, '
+         'constants round trip over key orders, and N+M vs N-then-M runs of the real driver for several save intervals.',
+    note=BOUNDED_NOTE + 'h5py mpio driver replaced by a documented stand-in. Found and fixed three genuine defects (fix: 516e71a, '
+         '8d7565c and the float step counter).',
+    technique='bounded run-time checking of the real driver and I/O paths under simulated MPI')
+
 NOT_APPLICABLE = {
     'C19': 'compares compiled pyccel artefacts with their Python source: translation validation; no deductive verifier for the '
            'generated Fortran/C is installed (DESIGN.md, C19)',
 }
-for _p in [ 'C05', 'C08', 'C09', 'C12', 'C13', 'C14', 'C15', 'C17', 'C18']:
+for _p in ['C08', 'C09', 'C13', 'C14', 'C15']:
     NOT_APPLICABLE[_p] = 'check not built yet in this session (planned, see DESIGN.md); not claimed until its contracts discharge'
